@@ -1,35 +1,100 @@
-"""Generators: run eagerly, collecting yields (for generator functions whose
-body is within the subset and finite on the given arguments)."""
-import ast
+"""Generators.
 
-from .core import Unsupported
+* Lazy (default): the generator body runs in its own host thread that is
+  handed control only while the consumer waits in next(); exactly one of the
+  two runs at any time, so the shared interpreter state needs no locking.
+  This gives Python's interleaving (a consumer that stops early leaves the
+  generator suspended at its yield).
+* contextlib.contextmanager generators are handled by the `with` rule in
+  interp.py (the with-block runs at the yield).
+"""
+import threading
+
+from .core import Unsupported, PyRaise, PathEnd, EngineError
 from . import interp as I
 
 
-class _Yielded(Exception):
+class _Close(BaseException):
     pass
 
 
-def run_generator(it, g):
-    f = g.func
-    out = []
-    loc = it.bind_args(f, g.args, g.kwargs)
-    if f._locals is None:
-        f._locals = set(loc) | I._assigned_names(f.node)
-    fr = I.Frame(f, loc, f.closure, f.module, f._locals)
-    fr.yield_sink = out
-    it.frames.append(fr)
-    old = getattr(it, '_yield_sink', None)
-    it._yield_sink = out
-    try:
+class GenRunner:
+    def __init__(self, it, g):
+        self.it = it
+        self.g = g
+        self.started = False
+        self.finished = False
+        self.to_gen = threading.Semaphore(0)
+        self.to_consumer = threading.Semaphore(0)
+        self.outcome = None        # ('yield', v) | ('done',) | ('raise', exc)
+        self.closing = False
+        self.thread = None
+        self.frames = []
+        self.exc_stack = []
+
+    def _body(self):
+        it = self.it
+        f = self.g.func
+        self.to_gen.acquire()
         try:
-            it.exec_block(f.node.body, fr)
-        except I._Return:
-            pass
-    finally:
-        it._yield_sink = old
-        it.frames.pop()
-    return out
+            if self.closing:
+                raise _Close()
+            loc = it.bind_args(f, self.g.args, self.g.kwargs)
+            if f._locals is None:
+                f._locals = set(loc) | I._assigned_names(f.node)
+            fr = I.Frame(f, loc, f.closure, f.module, f._locals)
+            fr.gen_runner = self
+            it.frames.append(fr)
+            try:
+                it.exec_block(f.node.body, fr)
+            except I._Return:
+                pass
+            self.outcome = ('done',)
+        except _Close:
+            self.outcome = ('done',)
+        except BaseException as e:      # PyRaise / EngineError / crash
+            self.outcome = ('raise', e)
+        self.finished = True
+        self.to_consumer.release()
+
+    def at_yield(self, value):
+        """Called in the generator thread."""
+        self.outcome = ('yield', value)
+        self.to_consumer.release()
+        self.to_gen.acquire()
+        if self.closing:
+            raise _Close()
+        return None
+
+    def next(self):
+        it = self.it
+        if self.finished:
+            it.throw(StopIteration)
+        if not self.started:
+            self.started = True
+            self.thread = threading.Thread(target=self._body, daemon=True)
+            self.thread.start()
+            it.live_generators.append(self)
+        # hand the interpreter over
+        saved = (it.frames, it.exc_stack, getattr(it, '_cur_gen', None))
+        it.frames, it.exc_stack = self.frames, self.exc_stack
+        it._cur_gen = self
+        self.to_gen.release()
+        self.to_consumer.acquire()
+        self.frames, self.exc_stack = it.frames, it.exc_stack
+        it.frames, it.exc_stack, it._cur_gen = saved
+        out = self.outcome
+        if out[0] == 'yield':
+            return out[1]
+        if out[0] == 'done':
+            it.throw(StopIteration)
+        raise out[1]
+
+    def close(self):
+        if self.started and not self.finished:
+            self.closing = True
+            self.to_gen.release()
+            self.to_consumer.acquire()
 
 
 def ex_Yield(self, e, fr):
@@ -37,13 +102,49 @@ def ex_Yield(self, e, fr):
     if cb is not None and fr.func is not None and \
             getattr(fr.func, 'is_contextmanager', False):
         return cb(None if e.value is None else self.eval(e.value, fr))
-    sink = getattr(self, '_yield_sink', None)
-    if sink is None:
+    runner = getattr(self, '_cur_gen', None)
+    if runner is None:
         raise Unsupported('yield outside a generator run')
-    sink.append(None if e.value is None else self.eval(e.value, fr))
-    if len(sink) > 100000:
-        raise Unsupported('unbounded generator')
-    return None
+    return runner.at_yield(None if e.value is None
+                           else self.eval(e.value, fr))
 
 
 I.Interp.ex_Yield = ex_Yield
+
+
+def run_generator(it, g):
+    """All items (used when a generator is consumed by list()/sorted()...)."""
+    r = runner_of(it, g)
+    out = []
+    while True:
+        try:
+            out.append(r.next())
+        except PyRaise as e:
+            if any(c.host is StopIteration for c in e.exc.cls.mro):
+                return out
+            raise
+        if len(out) > 100000:
+            raise Unsupported('unbounded generator')
+
+
+def runner_of(it, g):
+    r = getattr(g, 'runner', None)
+    if r is None:
+        r = g.runner = GenRunner(it, g)
+    return r
+
+
+def lazy_items(it, g):
+    """Host generator over the items (for `for` loops)."""
+    r = runner_of(it, g)
+    try:
+        while True:
+            try:
+                v = r.next()
+            except PyRaise as e:
+                if any(c.host is StopIteration for c in e.exc.cls.mro):
+                    return
+                raise
+            yield v
+    finally:
+        r.close()
